@@ -25,6 +25,7 @@ import (
 	"strings"
 	"sync"
 
+	"github.com/bwmarrin/snowflake"
 	"github.com/xujiajun/nutsdb/ds/list"
 	"github.com/xujiajun/nutsdb/ds/set"
 	"github.com/xujiajun/nutsdb/ds/zset"
@@ -141,6 +142,8 @@ type (
 		KeyCount                int // total key number ,include expired, deleted, repeated.
 		closed                  bool
 		isMerging               bool
+		txIDNode                *snowflake.Node // transaction id generator, see Tx.getTxID
+		txIDMu                  sync.Mutex
 	}
 
 	// BPTreeIdx represents the B+ tree index
